@@ -139,6 +139,16 @@ def eval_call(I: Interp, node: ast.Call, fr: Frame):
             v = I.dict_get(SV(d.t, dty if dty.k == "dict" else T.DICT()), k)
             st.assume_wt(v)
             return v
+        if n == "same_dict_except":  # same_dict_except(d, k): every key other than k is in d with the value it had in the old state (and vice versa)
+            d = I.to_sv(I.ev(node.args[0], fr))
+            kx = I.to_sv(I.ev(node.args[1], fr))
+            old_h = st.old_stack[-1] if st.old_stack else st.entry_heap
+            r = smt.rid(d.t)
+            x = z3.Const(f"x!sde{id(node) % 10**9}", smt.Val)
+            has_n, has_o = z3.Select(st.arr("dhas"), r), z3.Select(old_h.get("dhas", st.arr("dhas")), r)
+            get_n, get_o = z3.Select(st.arr("dget"), r), z3.Select(old_h.get("dget", st.arr("dget")), r)
+            return I.as_bool_sv(z3.ForAll([x], z3.Implies(x != kx.t, z3.And(z3.Select(has_n, x) == z3.Select(has_o, x),
+                                                                          z3.Implies(z3.Select(has_n, x), z3.Select(get_n, x) == z3.Select(get_o, x))))))
         if n == "same_dict":  # same_dict(d): the dict object d has the contents (keys, values, order) it had in the old state
             d = I.to_sv(I.ev(node.args[0], fr))
             old_h = st.old_stack[-1] if st.old_stack else st.entry_heap
@@ -715,7 +725,7 @@ def _havoc(I: Interp, modifies, sf: Frame):
             st.assume(ev2 >= st.events_len)
             st.events_len = ev2
             for k in list(st.heap.keys()):
-                if k in ("cls", "ctag") or k.startswith("__"):
+                if k in ("cls", "ctag") or k.startswith("__") or k.startswith("g:"):
                     continue
                 st.setarr(k, z3.Const(f"Hv{st.n_fresh}_{k}", st.heap[k].sort()))
                 st.n_fresh += 1
@@ -759,11 +769,12 @@ def _havoc(I: Interp, modifies, sf: Frame):
                 # class-restricted havoc: only objects of (subclasses of) the class may differ
                 key = "f:" + tree.attr
                 cur = st.arr(key)
-                new = st.fresh("hv_" + tree.attr, smt.ArrIV)
+                fresh_arr = st.fresh("hv_" + tree.attr, smt.ArrIV)
                 rr = z3.Int("r!hv")
-                st.assume(z3.ForAll([rr], z3.Implies(z3.Not(st.subclass_pred(z3.Select(st.arr("cls"), rr), ci)),
-                                                      z3.Select(new, rr) == z3.Select(cur, rr))))
+                # pointwise: objects of the class get the fresh value, all others keep theirs (no quantifier needed)
+                new = z3.Lambda([rr], z3.If(st.subclass_pred(z3.Select(st.arr("cls"), rr), ci), z3.Select(fresh_arr, rr), z3.Select(cur, rr)))
                 st.setarr(key, new)
+                st.pending_live.append((fresh_arr, key))
                 continue
             base = ev_spec(I, ast.unparse(head), sf)
             if not isinstance(base, SV):
@@ -825,6 +836,16 @@ def preserve_formulas(I: Interp, entries, sf: Frame, old: dict):
 
 def class_named(head, sf: Frame):
     """`Class.attr` in a modifies clause: the Name (or dotted name) resolves to a repo class and is not a local."""
+    if isinstance(head, ast.Attribute):  # Outer.Inner (nested class)
+        base = head
+        while isinstance(base, ast.Attribute):
+            base = base.value
+        if isinstance(base, ast.Name) and not sf.has(base.id):
+            try:
+                return Repo_get().class_by_name(ast.unparse(head))
+            except KeyError:
+                return None
+        return None
     if isinstance(head, ast.Name) and not sf.has(head.id):
         r = sf.module.resolve_name(head.id)
         if isinstance(r, ClassInfo):
@@ -948,4 +969,7 @@ def list_extend(I: Interp, l: SV, other):
         st.setarr("lel", z3.Store(st.arr("lel"), r, z3.Select(st.arr("lel"), smt.rid(cat.t))))
         st.setarr("llen", z3.Store(st.arr("llen"), r, z3.Select(st.arr("llen"), smt.rid(cat.t))))
         return
+    if isinstance(other, SV) and T.strip_opt(other.ty).k in ("set", "dict") or isinstance(other, PIter):
+        from .comp import build_collection
+        return list_extend(I, l, build_collection(I, "list", [other], {}, None))
     raise Refuse("list.extend with non-list")
